@@ -522,10 +522,152 @@ def gen_vf(ctx: Ctx):
         yield {"mode": "vf", "preds": preds or None, "locals": locs, "ret": ret, "base": base, "tag": "vf-random"}
 
 
+# --------------------------------------------------------------------------
+# ResourceFunction level (stretch: oracle only, no model of reconcile_krm_resource)
+# --------------------------------------------------------------------------
+try:
+    import cluster as _cluster_mod      # noqa: F401
+    RF_AVAILABLE = True
+except Exception:                       # pragma: no cover
+    RF_AVAILABLE = False
+
+RF_SITES = ["name", "resource", "resource-deep", "overlay0", "overlay1-deep", "skipIf", "create-overlay",
+            "postcondition-message", "return", "locals"]
+
+
+def rf_case(site, leaf, present):
+    """A ResourceFunction in which exactly one expression (at `site`) fails and which is set up so that
+    the site is reached."""
+    c = {"mode": "rf", "site": site, "present": present, "name": L(["lit", "obj"]),
+         "resource": M(("spec", M(("v", L(["lit", 1])), ("labels", M())))),
+         "overlays": [{"overlay": M(("spec", M(("a", L(["in", 2])))))},
+                      {"skipIf": L(["cel", "=false", False]), "overlay": M(("spec", M(("b", M(("c", L(["lit", 3])))))))}],
+         "create": None, "post": None, "locals": None, "ret": M(("r", L(["cel", "=resource.spec.v", 1]))), "tag": f"rf:{site}"}
+    if site == "name":
+        c["name"] = L(leaf)
+    elif site == "resource":
+        c["resource"] = M(("spec", M(("v", L(leaf)))))
+    elif site == "resource-deep":
+        c["resource"] = M(("spec", M(("l", ["A", [L(["lit", 1]), M(("z", M(("y", L(leaf)))))]]))))
+    elif site == "overlay0":
+        c["overlays"][0] = {"overlay": M(("spec", M(("a", L(leaf)))))}
+    elif site == "overlay1-deep":
+        c["overlays"][1]["overlay"] = M(("spec", M(("b", M(("c", ["A", [M(("d", L(leaf)))]]))))))
+    elif site == "skipIf":
+        c["overlays"][1]["skipIf"] = L(leaf)
+    elif site == "create-overlay":
+        c["create"] = M(("spec", M(("once", L(leaf)))))
+        c["present"] = False
+    elif site == "postcondition-message":
+        c["post"] = [H.pred(["in", False], "skip", leaf)]
+        c["present"] = "match"
+    elif site == "return":
+        c["ret"] = M(("r", M(("deep", ["A", [L(leaf)]]))))
+        c["present"] = "match"
+    elif site == "locals":
+        c["locals"] = M(("x", M(("y", L(leaf)))))
+    return c
+
+
+def run_rf(case):
+    import celpy
+    from cluster import Cluster
+    from koreo.resource_function.prepare import prepare_resource_function
+    from koreo.resource_function.reconcile import reconcile_resource_function
+    from koreo.resource_function.structure import ResourceFunction
+    b = Builder()
+    spec = {"apiConfig": {"apiVersion": "test.koreo.dev/v1", "kind": "TestResource", "plural": "testresources",
+                          "name": b.spec(case["name"]), "namespace": "ns"},
+            "resource": b.spec(case["resource"]),
+            "overlays": [{k: b.spec(d) for k, d in o.items()} for o in case["overlays"]]}
+    if case.get("create") is not None:
+        spec["create"] = {"overlay": b.spec(case["create"])}
+    if case.get("locals") is not None:
+        spec["locals"] = b.spec(case["locals"])
+    if case.get("post") is not None:
+        spec["postconditions"] = [b.spec(p) for p in case["post"]]
+    if case.get("ret") is not None:
+        spec["return"] = b.spec(case["ret"])
+    prepared = H.run_async(prepare_resource_function("k", spec))
+    if not (isinstance(prepared, tuple) and isinstance(prepared[0], ResourceFunction)):
+        return None
+    fn = prepared[0]
+    objects = []
+    if case["present"]:
+        obj = {"apiVersion": "test.koreo.dev/v1", "kind": "TestResource",
+               "metadata": {"name": "obj", "namespace": "ns",
+                            "ownerReferences": [dict(H.OWNER[1], **{"name": "o", "uid": "u-1"})]},
+               "spec": {"v": 1, "labels": {}, "a": 2, "b": {"c": 3}} if case["present"] == "match" else {"v": 0}}
+        objects.append(obj)
+    cl = Cluster(objects=objects)
+    owner = ("ns", {"apiVersion": "v1", "kind": "Owner", "name": "o", "uid": "u-1",
+                    "blockOwnerDeletion": True, "controller": False})
+    leak = False
+    with H.recording() as log:
+        try:
+            r = H.run_async(reconcile_resource_function(cl, LOC, fn, owner, real_inputs(b)))
+            obs = H.observe(r.outcome)
+            leak = H.walk_has_error(r.outcome) or H.walk_has_error(getattr(r.outcome, "__dict__", None)) \
+                or H.walk_has_error(r.resource_id)
+        except Exception as e:
+            obs = ["raised", type(e).__name__]
+    bodies = [c.get("body") for c in cl.calls if c.get("body") is not None]
+    return {"obs": obs, "raws": [x for _, x in log], "leak": leak, "spec": spec, "inputs": b.inputs,
+            "calls": [c["method"] for c in cl.calls],
+            "body_leak": any("CELEvalError" in repr(bd) for bd in bodies)}
+
+
+def check_rf(ctx: Ctx, case):
+    if not RF_AVAILABLE:
+        ctx.count("skipped:rf (harness/cluster.py not available)")
+        return None
+    out = run_rf(case)
+    if out is None:
+        ctx.count("skipped:rf does not prepare")
+        return None
+    obs = out["obs"]
+    why = None
+    rec_failed = any(raw_failed(x) for x in out["raws"])
+    if obs[0] == "raised":
+        why = (H.escape_signature("rf", obs[1], out["raws"]), f"reconcile_resource_function raised {obs[1]}")
+    elif out["leak"]:
+        why = ("rf: error object in the result", "the Result of reconcile_resource_function holds a CELEvalError")
+    elif out["body_leak"]:
+        why = ("rf: error object sent to the API server", "a POST/PATCH body mentions a CELEvalError")
+    elif rec_failed or case["site"] != "none":
+        if not (obs[0] == "out" and obs[1] == 4):
+            why = (f"rf: failing expression at {case['site']} is not a PermFail",
+                   f"an expression at {case['site']} failed to evaluate but the function returned {obs} "
+                   f"(API calls {out['calls']})")
+        elif not (obs[3] or obs[4]):
+            why = ("rf: PermFail names no location", repr(obs))
+        elif any(m in ("POST", "PATCH", "DELETE") for m in out["calls"]):
+            why = ("rf: cluster mutated although an expression failed", repr(out["calls"]))
+    if why:
+        ctx.fail(Failure(why[0], why[1], case, observed={"spec": out["spec"], "inputs": out["inputs"],
+                                                         "result": obs, "calls": out["calls"]}))
+    ctx.count(f"rf-site:{case['site']}:{'failed-as-recorded' if rec_failed else 'clean'}")
+    ctx.count("rf-result:" + (obs[0] if obs[0] != "out" else str(obs[1])))
+    return None          # oracle only: reconcile_krm_resource is not modelled
+
+
+def gen_rf(ctx: Ctx):
+    rng = ctx.rng
+    leaves = FAIL_LEAVES if not ctx.quick() else rng.sample(FAIL_LEAVES, 14)
+    for leaf in leaves:
+        for site in RF_SITES:
+            for present in ([False, "drift", "match"] if site in ("resource", "overlay0", "name") else ["drift"]):
+                yield rf_case(site, leaf, present)
+    for present in (False, "drift", "match"):
+        yield dict(rf_case("locals", ["lit", 1], present), site="none", tag="rf:clean")
+
+
 def gen_cases(ctx: Ctx):
     rng = ctx.rng
     for c in corpus_cases("C10"):
         yield c
+    if RF_AVAILABLE:
+        yield from gen_rf(ctx)
     # every failing expression, alone and nested, through evaluate and evaluate_overlay
     for leaf in FAIL_LEAVES:
         yield {"mode": "eval", "doc": L(leaf), "tag": "each:top"}
@@ -569,6 +711,8 @@ def nontrivial(case) -> bool:
         return case["doc"] is not None and doc_depth_of_failure(case["doc"]) >= 1
     if m == "vf":
         return sum(1 for d in (case["preds"], case.get("locals"), case.get("ret")) if d) >= 2
+    if m == "rf":
+        return case["site"] != "none"
     return True
 
 
@@ -582,6 +726,8 @@ def check_one(ctx: Ctx, case):
         return check_overlay(ctx, case)
     if m == "predraw":
         return check_predraw(ctx, case)
+    if m == "rf":
+        return check_rf(ctx, case)
     return check_vf(ctx, case)
 
 
@@ -600,7 +746,8 @@ def run(ctx: Ctx):
         if term is not None:
             cases.append(case)
             terms.append(term)
-    ctx.count("rf/workflow sites: not exercised (needs harness/cluster.py)")
+    ctx.count("workflow sites: not exercised; rf sites: oracle only" if RF_AVAILABLE
+              else "rf/workflow sites: not exercised (harness/cluster.py not available)")
     if ctx.model_ok:
         ctx.correspond("cel.evaluation / reconcile_value_function vs ErrScan.v+Predicates.v", "Corr_C10", cases, terms)
 
